@@ -403,8 +403,9 @@ func (x *c15G) leaf() *c15Node {
 		a, b := x.field(), x.field()
 		n.Pat = x.r.PickStr([]string{
 			"(?P<" + a + ">ab)", "^(?P<" + a + ">a)(?P<" + b + ">b)?c", "x(b)(?P<" + a + ">cd)?", "id=(?P<" + a + ">7)$",
-			"(?P<" + a + ">a)(?P<" + b + ">a)?", "(ab)(?P<" + a + ">c)"})
-		x.add(n.Key, "ab", "xxabyy", "abc", "ac", "xbcd", "xb", "zxbcdz", "id=7", "id=70", "aa", "a", "bca")
+			"(?P<" + a + ">a)(?P<" + b + ">a)?", "(ab)(?P<" + a + ">c)",
+			"(?P<" + a + ">[0-9]*)-(?P<" + b + ">[a-z]*)", "x(?P<" + a + ">[a-z]*)(?P<" + b + ">7)?"})
+		x.add(n.Key, "ab", "xxabyy", "abc", "ac", "xbcd", "xb", "zxbcdz", "id=7", "id=70", "aa", "a", "bca", "-", "12-", "-ab", "x7", "x")
 		return n
 	}
 }
@@ -542,7 +543,9 @@ func c15Gen(g *Gen) {
 	c15TruncateOdd(g)
 	c15CleanFamilies(g)
 	c15Extracts(g)
+	c15ExtractEmpty(g)
 	c15Drops(g)
+	c15DropLong(g)
 	c15Matchers(g)
 	c15Unescapes(g)
 	c15Edges(g)
